@@ -582,9 +582,10 @@ pub fn suite_stacks(ctx: &mut Ctx) {
 /// bound on cross comparisons after expiry accepted by the oracle: twice the theorem's bound
 pub fn post_expiry_bound(alg: Algorithm, n: usize, m: usize) -> u64 {
     let s = (n + m) as u64;
+    // proved: LCS 0, Myers <= 3*min(N,M) <= 1.5*(N+M); Patience: hand-derived 4*(N+M) (measured <= 1.0*(N+M))
     match alg {
-        Algorithm::Myers => 2 * (2 * s + 4),
-        Algorithm::Patience => 2 * (4 * s + 8),
+        Algorithm::Myers => 2 * s + 4,
+        Algorithm::Patience => 4 * s + 8,
         Algorithm::Lcs => 0,
     }
 }
@@ -665,6 +666,22 @@ pub fn suite_deadline(ctx: &mut Ctx) {
                     }
                 } else {
                     ctx.violation("C07", &req, format!("{:?} under an expiring deadline", out.status));
+                }
+                // the same expiry point through `Replace` alone (the fallback's delete + insert must
+                // reach the adapter as such and come out as one valid script)
+                let mut cr = c.clone();
+                cr.stack = Stack::Replace;
+                let (rreq, rout) = emit_case(ctx, &cr);
+                if rout.status != Status::Ok {
+                    ctx.violation("C07", &rreq, format!("{:?} under an expiring deadline through Replace", rout.status));
+                } else {
+                    if let Err(e) = oracle::finish_once_last(&rout.trace) {
+                        ctx.violation("C07", &rreq, e);
+                    }
+                    let calls = oracle::strip_finish(&rout.trace);
+                    if let Err(e) = oracle::walk(&cr.old, &cr.new, cr.o_off, cr.n_off, ranges(&cr), &calls, false) {
+                        ctx.violation("C07", &rreq, format!("through Replace: {}", e));
+                    }
                 }
                 // capture pipeline under the same clock (C02/C09 with deadline, plumbing of capture_diff_deadline)
                 let creq = capture_request(&c);
